@@ -59,6 +59,8 @@ Qed.
    pair of operators *)
 Definition grouped_variants (o1 o2 : token_type) : list (list token_type) :=
   let a := TT_Number in let L := TT_StartGroup in let R := TT_EndGroup in
+  if sep_tok o1 || sep_tok o2 then []   (* inside round brackets `;` is whitespace by design: not an operator there *)
+  else
   match ref_kind o1, ref_kind o2 with
   | KBinary, KBinary => [[L; a; o1; a; R; o2; a]; [a; o1; L; a; o2; a; R]]
   | KPrefix, KBinary => [[o1; L; a; o2; a; R]; [L; o1; a; R; o2; a]]
